@@ -5,15 +5,89 @@ decided."""
 import ast
 import re
 
-from ..core import (AnalysisError, body_nodes, call_name, dotted, enclosing_stmt, is_self_attr, key_text, names_in,
+from ..core import (AnalysisError, assigned_targets, body_nodes, call_name, dotted, enclosing_stmt, is_self_attr, key_text, names_in,
                     params, parent, stmts_of, unparse)
 from ..flow import possibly_undefined, reaching_defs
+from ..normal import inline_temps
+from ..pattern import P, branches, guards_of, pmatch
 from ..own import FuncInfo, Own
 
 SITE = 'tenpy/networks/site.py'
 TERMS = 'tenpy/networks/terms.py'
 MPS = 'tenpy/networks/mps.py'
 MODEL = 'tenpy/models/model.py'
+
+
+def _strip_bool(e):
+    while isinstance(e, ast.Call) and call_name(e) == 'bool' and len(e.args) == 1:
+        e = e.args[0]
+    return e
+
+
+def _parity_defect(f):
+    """None if `f` (normal form) computes the parity of `x in self.need_JW_string` over all
+    factors of `name.split()`: an accumulator toggled once per fermionic factor (`v = not v`
+    under the membership test, or v = v != m / v ^ m / v ^= m), started from the first factor
+    (loop over the rest) or from False (loop over all); or a count taken modulo 2."""
+    member = P('$$x in self.need_JW_string')
+    rets = [s for s in ast.walk(f) if isinstance(s, ast.Return) and s.value is not None]
+    if len(rets) != 1:
+        return 'expected a single return'
+    rv = _strip_bool(rets[0].value)
+    # count % 2 forms
+    for pat in ('sum($$g) % 2 == 1', 'sum($$g) % 2 != 0', 'sum($$g) % 2', 'len($$g) % 2 == 1',
+                'sum($$g) & 1'):
+        e = pmatch(pat, rv)
+        if e and 'in self.need_JW_string' in unparse(e['$$g']) and \
+                'name.split()' in unparse(e['$$g']) and '[1:]' not in unparse(e['$$g']):
+            return None
+    if not isinstance(rv, ast.Name):
+        return 'returns `%s`' % unparse(rv)[:60]
+    v = rv.id
+    loops = [s for s in f.body if isinstance(s, ast.For) and isinstance(s.target, ast.Name)]
+    if len(loops) != 1:
+        return 'expected one loop over the factors'
+    lp = loops[0]
+    x = lp.target.id
+    toggles = 0
+    for st in lp.body:
+        ok = False
+        if isinstance(st, ast.If) and not st.orelse and len(st.body) == 1:
+            e = pmatch(member, st.test)
+            if e and unparse(e['$$x']) == x and pmatch('%s = not %s' % (v, v), st.body[0]):
+                ok = True
+        for pat in ('%s = %s != $$m', '%s = %s ^ $$m', '%s = %s is not $$m'):
+            e = pmatch(pat % (v, v), st)
+            if e:
+                mm = pmatch(member, _strip_bool(e['$$m']))
+                ok = bool(mm) and unparse(mm['$$x']) == x
+        if isinstance(st, ast.AugAssign) and isinstance(st.op, ast.BitXor) and \
+                unparse(st.target) == v:
+            mm = pmatch(member, _strip_bool(st.value))
+            ok = bool(mm) and unparse(mm['$$x']) == x
+        if ok:
+            toggles += 1
+        elif v in names_in(st) and any(isinstance(t, ast.Name) and t.id == v
+                                       for s2 in ast.walk(st)
+                                       for t in (assigned_targets(s2) if isinstance(
+                                           s2, ast.stmt) else [])):
+            return '`%s` updates the flag in a way that is not a toggle per fermionic factor' % \
+                key_text(st)[:60]
+    if toggles != 1:
+        return 'the loop toggles the flag %d times per factor' % toggles
+    inits = [s for s in f.body if isinstance(s, ast.Assign) and unparse(s.targets[0]) == v
+             and s.lineno < lp.lineno]
+    if len(inits) != 1:
+        return 'the flag is not initialised exactly once before the loop'
+    iv = _strip_bool(inits[0].value)
+    it = unparse(lp.iter)
+    e = pmatch(member, iv)
+    if e and unparse(e['$$x']) == 'name.split()[0]' and it == 'name.split()[1:]':
+        return None
+    if isinstance(iv, ast.Constant) and iv.value is False and it == 'name.split()':
+        return None
+    return 'initial value `%s` with a loop over `%s` does not cover every factor exactly once' % (
+        unparse(iv)[:40], it)
 
 
 def check_site_registry(prog, rep):
@@ -82,20 +156,13 @@ def check_site_registry(prog, rep):
                 rep.violation('SITE-registry', m, 'Site.rename_op', 'rename:read-after-remove',
                               'need_JW is read after remove_op already discarded it', s.lineno)
     # op_needs_JW: parity (xor) over the factors of a product name
-    f = m.func('Site.op_needs_JW')
+    f = inline_temps(m.func('Site.op_needs_JW'))
     rep.instance('SITE-jw-parity', {})
-    ok = False
-    for s in ast.walk(f):
-        if isinstance(s, ast.For):
-            for b in ast.walk(s):
-                if isinstance(b, ast.If) and 'in self.need_JW_string' in unparse(b.test) and any(
-                        isinstance(x, ast.Assign) and unparse(x.value).startswith('not ')
-                        for x in b.body):
-                    ok = True
-    if not ok or 'names[0] in self.need_JW_string' not in unparse(f):
+    why = _parity_defect(f)
+    if why:
         rep.violation('SITE-jw-parity', m, 'Site.op_needs_JW', 'parity',
-                      'a product of operators needs a JW string iff an odd number of factors does',
-                      f.lineno)
+                      'a product of operators needs a JW string iff an odd number of factors '
+                      'does: ' + why, f.lineno)
     # get_hc_op_name: reversed order, each factor mapped
     f = m.func('Site.get_hc_op_name')
     rep.instance('SITE-hc-name', {})
